@@ -580,3 +580,80 @@ func ruleSYNTHNAME(c *Ctx) {
 		c.Lost(rule, key, "no Category literal named \"TokenSet\" found")
 	}
 }
+
+// KEYCOV(cast-action): rules without a user action whose first symbol has another type than the
+// left-hand side get a default action that casts; generateTables hands out one action id per
+// *cast behaviour* so that DFA minimisation does not merge states that cast differently. The key
+// under which an id is shared must therefore contain both operands of the test that decided a
+// cast is needed (the left-hand side's type and the first right-hand-side symbol's type). A
+// coarser key (the nonterminal alone) gives two alternatives `{float}: 'x'{int} | 'z'{string}`
+// the same id; minimised, one of them runs the other's cast.
+func ruleCASTKEY(c *Ctx) {
+	const rule = "KEYCOV(cast-action)"
+	key := "compiler.generateTables:castActions"
+	f := c.SSAFunc("compiler", "generateTables")
+	if f == nil {
+		c.Lost(rule, key, "function not found")
+		return
+	}
+	n := 0
+	for _, b := range f.Blocks {
+		for _, ins := range b.Instrs {
+			mu, ok := ins.(*ssa.MapUpdate)
+			if !ok {
+				continue
+			}
+			call, ok := mu.Value.(*ssa.Call)
+			if !ok {
+				continue
+			}
+			if bi, ok := call.Call.Value.(*ssa.Builtin); !ok || bi.Name() != "len" || !strings.HasSuffix(vpath(call.Call.Args[0]), ".Actions") {
+				continue
+			}
+			n++
+			// values the key is made of
+			parts := map[ssa.Value]bool{mu.Key: true}
+			if u, ok := mu.Key.(*ssa.UnOp); ok && u.Op == token.MUL {
+				if al, ok := u.X.(*ssa.Alloc); ok && al.Referrers() != nil {
+					for _, r := range *al.Referrers() {
+						if fa, ok := r.(*ssa.FieldAddr); ok && fa.Referrers() != nil {
+							for _, r2 := range *fa.Referrers() {
+								if st, ok := r2.(*ssa.Store); ok {
+									parts[st.Val] = true
+								}
+							}
+						}
+					}
+				}
+			}
+			// the string comparison that decided "a cast is needed"
+			var l, r ssa.Value
+			for _, g := range flattenConds(governing(b)) {
+				bo, ok := g.V.(*ssa.BinOp)
+				if !ok || (bo.Op != token.EQL && bo.Op != token.NEQ) {
+					continue
+				}
+				if _, isK := bo.X.(*ssa.Const); isK {
+					continue
+				}
+				if _, isK := bo.Y.(*ssa.Const); isK {
+					continue
+				}
+				if bt, ok := bo.X.Type().Underlying().(*types.Basic); ok && bt.Info()&types.IsString != 0 {
+					l, r = bo.X, bo.Y
+				}
+			}
+			switch {
+			case l == nil:
+				c.Lost(rule, key, "the comparison of the two types that decides whether a cast is needed was not found")
+			case parts[l] && parts[r]:
+				c.Ok(rule, key, mu.Pos(), "default-cast action ids are shared under a key that contains both compared types (%s, %s)", normalizePhi(vpath(l)), normalizePhi(vpath(r)))
+			default:
+				c.Bad(rule, key, mu.Pos(), "default-cast action ids are shared under %s, which does not contain both types whose difference requires the cast (%s, %s): rules that cast differently get one action id and DFA minimisation may merge their reduce states", normalizePhi(vpath(mu.Key)), normalizePhi(vpath(l)), normalizePhi(vpath(r)))
+			}
+		}
+	}
+	if n < 1 {
+		c.Lost(rule, key, "no `castActions[key] = len(parser.Actions)` registration found")
+	}
+}
